@@ -759,6 +759,13 @@ func runC18(p *Program, r *Report) {
 			}
 			cl := pa.Calls("Conn.Close")
 			if mism {
+				// the 1003 close is the connection's own orderly failure close: cancelling the read context first would let the
+				// timeout watcher tear the transport down before the close frame is out
+				for _, e := range pa.Events {
+					if e.Kind == "call" && strings.HasPrefix(e.Callee, "dyn ") && strings.Contains(e.Callee, "Cancel") {
+						return false, "mismatch: " + e.Callee + " called before the connection is closed with 1003"
+					}
+				}
 				if len(cl) != 1 || argKey(cl[0], 1) != "1003" || installed || retErr(pa) != "nonnil" {
 					return false, fmt.Sprintf("mismatch: Close calls=%d code=%s installed=%v err=%s", len(cl), func() string {
 						if len(cl) > 0 {
@@ -771,6 +778,23 @@ func runC18(p *Program, r *Report) {
 			}
 			if !installed || len(cl) > 0 {
 				return false, "right type but reader not installed / connection closed"
+			}
+			return true, ""
+		})
+	}
+	if fn := p.Func("netConn.read"); fn != nil {
+		p.forAllPaths(r, "C18.msgend", fn, "reader dropped only at the end of its message", Opts{}, "netConn.read forgets the current message reader only when that reader returned io.EOF (by identity); a deadline error, or any other error, leaves a partly read message in place so that the stream continues where it stopped", func(pa *Path) (bool, string) {
+			for _, e := range pa.Events {
+				if e.Kind != "store" || e.AddrK != "netConn.reader" {
+					continue
+				}
+				if keyIs(e.Val, "call:Conn.Reader@@#1") {
+					continue // installing the reader of a new message
+				}
+				eof, known := decidedRel(pa, "call:invoke io.Reader.Read@@#1", "==", "G:io.EOF")
+				if !known || !eof {
+					return false, "netConn.reader is set to " + e.Val.Key() + " on a path where the message reader did not return io.EOF"
+				}
 			}
 			return true, ""
 		})
